@@ -25,7 +25,7 @@ def raw_tiles(raw, n):
 @spec
 def templated_tiles(sf, n):
     """the rendered slices tile [0, n) exactly and in order (start at 0, contiguous, end at n)"""
-    return (len(sf) > 0 and sf[0].templated_slice.start == 0 and sf[len(sf) - 1].templated_slice.stop == n
+    return ((n == 0 if len(sf) == 0 else (sf[0].templated_slice.start == 0 and sf[len(sf) - 1].templated_slice.stop == n))
             and all(sf[k].templated_slice.stop == sf[k + 1].templated_slice.start for k in range(len(sf) - 1)))
 
 
@@ -103,6 +103,12 @@ class raw_process:
                 and len(result[1]) == 0)
 
 
+def _bounded():
+    from .c07_bounded import BOUNDED as B
+    return list(B)
+
+
+BOUNDED = _bounded()
 TRUSTED = ["str.find contract (via iter_indices_of_newlines, C31)"]
 NOT_COVERED = ["source-slice bounds and literal-text equality (3rd/4th conjunct of the property) are decided only for the "
                "raw templater (by construction) and bounded for python/jinja/placeholder slicers",
